@@ -3,9 +3,12 @@
 package rig
 
 import (
+	"bytes"
 	"regexp"
 	"runtime"
 	"strings"
+	"sync"
+	"sync/atomic"
 	"syscall"
 	"testing"
 	"testing/synctest"
@@ -115,4 +118,52 @@ func Settle() {
 		ts := syscall.Timespec{Nsec: 150_000}
 		syscall.Nanosleep(&ts, nil)
 	}
+	// On a busy machine 2 ms may not be enough for the others to get the processor at all: go on
+	// until no other goroutine of the process is running or waiting for a processor (a goroutine
+	// blocked on a channel, a mutex, a timer or the network is at rest).  Bounded; whoever needs a
+	// particular state checks for it afterwards.
+	for i := 0; i < 400 && othersBusy(); i++ {
+		runtime.Gosched()
+		ts := syscall.Timespec{Nsec: 500_000}
+		syscall.Nanosleep(&ts, nil)
+	}
+}
+
+var settleBuf = make([]byte, 1<<20)
+var settleMu sync.Mutex
+var SettleExtended atomic.Int64
+
+// othersBusy scans a goroutine dump for goroutines, other than the caller, that are running,
+// runnable or in a system call.
+func othersBusy() bool {
+	settleMu.Lock()
+	defer settleMu.Unlock()
+	n := runtime.Stack(settleBuf, true)
+	if n == len(settleBuf) {
+		return false // too many goroutines to judge: fall back to the fixed pause
+	}
+	first := true
+	for _, blk := range bytes.Split(settleBuf[:n], []byte("\n\n")) {
+		if !bytes.HasPrefix(blk, []byte("goroutine ")) {
+			continue
+		}
+		if first {
+			first = false // the caller comes first in the dump
+			continue
+		}
+		i := bytes.IndexByte(blk, '[')
+		j := bytes.IndexByte(blk, ']')
+		if i < 0 || j < i {
+			continue
+		}
+		st := blk[i+1 : j]
+		if bytes.HasPrefix(st, []byte("running")) || bytes.HasPrefix(st, []byte("runnable")) || bytes.HasPrefix(st, []byte("syscall")) {
+			if bytes.Contains(blk, []byte("os/signal.signal_recv")) {
+				continue
+			}
+			SettleExtended.Add(1)
+			return true
+		}
+	}
+	return false
 }
